@@ -184,7 +184,11 @@ Lemma example_listing :
   /\ rows_ok_annotated ex_files 16 2 ex_bits ex_spans (set_nth 87 50 ex_text) = false    (* address 2 instead of 1 *)
   /\ (exists t, format_tcgame ex_files 2 3 ex_bits ex_spans = Ok t /\ rows_ok_tcgame ex_files 2 3 ex_bits ex_spans t = true)
   /\ (exists t, format_addrspan ex_files ex_spans = Ok t /\ rows_ok_addrspan ex_files ex_spans t = true).
-Proof. vm_compute. repeat split; try reflexivity; eexists; split; reflexivity. Qed.
+Proof.
+  split; [vm_compute; reflexivity|]. split; [vm_compute; reflexivity|]. split; [vm_compute; reflexivity|].
+  split; [vm_compute; reflexivity|]. split; [vm_compute; reflexivity|].
+  split; (eexists; split; [vm_compute; reflexivity|vm_compute; reflexivity]).
+Qed.
 
 (* finding F53 (repaired in /repo): with the reading used before the repair, the 3-bit item `5` (101) is listed
    as `b` and the 1-bit item `1` as `c`: the listing then fails the specification *)
@@ -192,7 +196,10 @@ Lemma pinned_witness :
   exists t, format_annotated_gen false ex_files 16 2 ex_bits ex_spans = Ok t
     /\ nth_error t 69 = Some 98 /\ nth_error t 91 = Some 99
     /\ rows_ok_annotated ex_files 16 2 ex_bits ex_spans t = false.
-Proof. vm_compute. eexists. repeat split; reflexivity. Qed.
+Proof.
+  eexists. split; [vm_compute; reflexivity|]. split; [vm_compute; reflexivity|].
+  split; [vm_compute; reflexivity|vm_compute; reflexivity].
+Qed.
 
 Lemma example_symbols :
   (* "a = 0x8000\na.y = 0x8004\na.z = 0x-3\nb = 0x8006\nhd = 0x2\n" *)
@@ -205,4 +212,7 @@ Lemma example_symbols :
   /\ symbols_ok_mesen ex_syms (format_mesen_mlb ex_syms) = true
   /\ symbols_ok_default ex_syms (format_default ex_syms ++ [104; 32; 61; 32; 48; 120; 55; 10]) = false   (* "h = 0x7" listed *)
   /\ symbols_ok_mesen ex_syms (format_mesen_mlb ex_syms ++ [80; 58; 102; 102; 58; 104; 100; 10]) = false.  (* "P:ff:hd" *)
-Proof. vm_compute. repeat split; reflexivity. Qed.
+Proof.
+  split; [vm_compute; reflexivity|]. split; [vm_compute; reflexivity|]. split; [vm_compute; reflexivity|].
+  split; [vm_compute; reflexivity|]. split; [vm_compute; reflexivity|vm_compute; reflexivity].
+Qed.
